@@ -222,6 +222,25 @@ faults(const struct cfg *c, int op, size_t off, size_t n)
             static unsigned char image[PC_MAX];
             size_t total = ps_cksize(c->ck) + c->size;
             memcpy(image, ps_medium, total);
+            /* a store that failed while writing data must not go on to seal what it left: if the medium holds neither
+             * the previous nor the new image and nevertheless carries a checksum that matches, then that checksum must
+             * be the one that was there before (a chance collision), not a freshly written one */
+            if ((op == OP_STORE || op == OP_STORE_PART) && ps_fault_was_write && a->addr >= c->place + ps_cksize(c->ck)) {
+                size_t cks = ps_cksize(c->ck);
+                static unsigned char newimg[PC_MAX];
+                memcpy(newimg, imgA, c->size);
+                if (op == OP_STORE)
+                    memcpy(newimg, imgB, c->size);
+                else
+                    memcpy(newimg + off, part, n);
+                uint32_t oldsum = ps_ref(c->ck, imgA, c->size);
+                int is_old = memcmp(image + cks, imgA, c->size) == 0, is_new = memcmp(image + cks, newimg, c->size) == 0;
+                VH_COUNT("store failing in a data write: medium inspected");
+                if (!is_old && !is_new && ps_medium_consistent(c->ck, c->size) && ps_stored_sum(c->ck) != oldsum)
+                    vh_fail("mixed-image-sealed", key, "size=%zu place=%u aux=%zu (off=%zu,n=%zu): access %zu (addr=%u len=%zu moved %zu) failed, "
+                            "rc=%d; the medium now holds neither the previous nor the new image, with a newly written checksum %x that "
+                            "matches it", c->size, c->place, c->auxsize, off, n, k, a->addr, a->len, a->done, rc, ps_stored_sum(c->ck));
+            }
             judge_image(c, image, op, "medium after an injected fault", 0, NULL);
         }
 }
@@ -353,7 +372,8 @@ harness_run(void)
                                  "fault injected: store_part read reports (size_t)-1",
                                  "fault injected: store write reports (size_t)-1",
                                  "fault injected: reset write reports (size_t)-1",
-                                 "placement with the last octet at the top of the address space" };
+                                 "placement with the last octet at the top of the address space",
+                                 "store failing in a data write: medium inspected" };
     for (size_t i = 0; i < sizeof req / sizeof req[0]; i++)
         vh_require(req[i]);
 }
